@@ -10,13 +10,14 @@ Import ListNotations.
 Open Scope N_scope.
 
 Section C10.
-Variable capdb : N -> capture.               (* contents of the capture files *)
+Variable capdb : N -> capture.               (* contents of the capture files ([] for an unreadable one) *)
+Variable bad : N -> bool.                    (* which capture files cannot be read *)
 Variable merge : list file -> list entry.    (* what index.Merge writes *)
 Hypothesis merge_lookup : forall fs id, find_ent id (merge fs) = lookup_vis fs id.
 Hypothesis merge_sub : forall fs e, In e (merge fs) -> In e (ents_of fs).
 Hypothesis merge_nodup : forall fs, files_ok fs -> NoDup (map e_id (merge fs)).
 
-Let run (rf : bool) (acts : list action) : state := fold_left (step capdb rf merge) acts init.
+Let run (rf : bool) (acts : list action) : state := fold_left (step capdb bad rf merge) acts init.
 
 (* The newest-version-wins map of the service list = every stream of every processed capture, in the
    version that all processed captures together give it -- whatever merges have happened. *)
@@ -27,7 +28,7 @@ Theorem C10_service_list_is_newest_version_of_everything_processed : forall rf a
      e_ver e = total_bytes capdb (processed st) (e_flow e)) /\
   (forall fl, in_caps capdb (processed st) fl = true ->
      exists e, lookup_vis (indexes st) (e_id e) = Some e /\ e_flow e = fl).
-Proof. intros rf acts. exact (v_spec _ _ _ (run_inv10 capdb merge merge_lookup merge_sub rf acts)). Qed.
+Proof. intros rf acts. exact (v_spec _ _ _ _ (run_inv10 capdb bad merge merge_lookup merge_sub rf acts)). Qed.
 
 (* ... exactly once: two visible entries never belong to the same stream *)
 Theorem C10_every_stream_exactly_once : forall rf acts id1 id2 e1 e2,
@@ -36,7 +37,7 @@ Theorem C10_every_stream_exactly_once : forall rf acts id1 id2 e1 e2,
   e_flow e1 = e_flow e2 -> id1 = id2.
 Proof.
   intros rf acts id1 id2 e1 e2.
-  exact (visible_once _ id1 id2 e1 e2 (v_ids _ _ _ (run_inv10 capdb merge merge_lookup merge_sub rf acts))).
+  exact (visible_once _ id1 id2 e1 e2 (v_ids _ _ _ _ (run_inv10 capdb bad merge merge_lookup merge_sub rf acts))).
 Qed.
 
 (* View.AllStreams enumerates exactly that map, every stream id once *)
@@ -46,8 +47,8 @@ Theorem C10_AllStreams_enumerates_the_visible_map : forall rf acts e,
   NoDup (map e_id (all_streams (indexes st))).
 Proof.
   intros rf acts e. split.
-  - exact (all_streams_lookup _ e (run_files_ok capdb merge merge_lookup merge_sub rf merge_nodup acts)).
-  - exact (merge_ents_nodup _ (run_files_ok capdb merge merge_lookup merge_sub rf merge_nodup acts)).
+  - exact (all_streams_lookup _ e (run_files_ok capdb bad merge merge_lookup merge_sub rf merge_nodup acts)).
+  - exact (merge_ents_nodup _ (run_files_ok capdb bad merge merge_lookup merge_sub rf merge_nodup acts)).
 Qed.
 
 (* A view opened at any moment holds the service list of that moment (hence, by the theorems above,
@@ -59,7 +60,7 @@ Theorem C10_view_is_complete_and_stable_snapshot : forall acts1 acts2 v,
   view_of v (views st1) = None -> (forall a, In a acts2 -> a <> ARelease v) ->
   view_of v (views st2) = Some (indexes st1) /\
   (forall f, In f (indexes st1) -> In (f_uid f) (disk st2)).
-Proof. intros acts1 acts2 v. exact (view_snapshot capdb merge acts1 acts2 v). Qed.
+Proof. intros acts1 acts2 v. exact (view_snapshot capdb bad merge acts1 acts2 v). Qed.
 
 (* The property in one statement: whatever happens between opening a view and releasing it, AllStreams
    through the view returns every stream of every capture processed before it was opened, exactly once, in the
@@ -77,7 +78,7 @@ Theorem C10_view_answers_complete_exactly_once_newest_and_constant : forall acts
     (forall f, In f s -> In (f_uid f) (disk st2)).
 Proof.
   intros acts1 acts2 v.
-  exact (view_answers capdb merge merge_lookup merge_sub merge_nodup acts1 acts2 v).
+  exact (view_answers capdb bad merge merge_lookup merge_sub merge_nodup acts1 acts2 v).
 Qed.
 
 End C10.
@@ -90,21 +91,21 @@ Theorem C10_concrete_merge_meets_hypotheses :
 Proof. exact (conj merge_ents_lookup (conj merge_ents_sub merge_ents_nodup)). Qed.
 
 (* Closed corollary for the instance that is extracted and run against the Go code. *)
-Theorem C10_extracted_model_service_list_complete : forall capdb acts,
-  let st := fold_left (step_impl capdb) acts init in
+Theorem C10_extracted_model_service_list_complete : forall capdb bad acts,
+  let st := fold_left (step_impl capdb bad) acts init in
   (forall id e, lookup_vis (indexes st) id = Some e ->
      in_caps capdb (processed st) (e_flow e) = true /\
      e_ver e = total_bytes capdb (processed st) (e_flow e)) /\
   (forall fl, in_caps capdb (processed st) fl = true ->
      exists e, lookup_vis (indexes st) (e_id e) = Some e /\ e_flow e = fl).
 Proof.
-  intros capdb acts.
-  exact (C10_service_list_is_newest_version_of_everything_processed capdb merge_ents merge_ents_lookup merge_ents_sub false acts).
+  intros capdb bad acts.
+  exact (C10_service_list_is_newest_version_of_everything_processed capdb bad merge_ents merge_ents_lookup merge_ents_sub false acts).
 Qed.
 
-Theorem C10_extracted_model_view_answers : forall capdb acts1 acts2 v,
-  let st1 := fold_left (step_impl capdb) acts1 init in
-  let st2 := fold_left (step_impl capdb) (acts1 ++ AView v :: acts2) init in
+Theorem C10_extracted_model_view_answers : forall capdb bad acts1 acts2 v,
+  let st1 := fold_left (step_impl capdb bad) acts1 init in
+  let st2 := fold_left (step_impl capdb bad) (acts1 ++ AView v :: acts2) init in
   view_of v (views st1) = None -> (forall a, In a acts2 -> a <> ARelease v) ->
   exists s, view_of v (views st2) = Some s /\
     (forall e, In e (all_streams s) ->
@@ -114,8 +115,8 @@ Theorem C10_extracted_model_view_answers : forall capdb acts1 acts2 v,
     NoDup (map e_flow (all_streams s)) /\
     (forall f, In f s -> In (f_uid f) (disk st2)).
 Proof.
-  intros capdb acts1 acts2 v.
-  exact (C10_view_answers_complete_exactly_once_newest_and_constant capdb merge_ents
+  intros capdb bad acts1 acts2 v.
+  exact (C10_view_answers_complete_exactly_once_newest_and_constant capdb bad merge_ents
            merge_ents_lookup merge_ents_sub merge_ents_nodup acts1 acts2 v).
 Qed.
 
@@ -125,8 +126,8 @@ Definition legacy_capdb (k : N) : capture := match k with 0 => [(0, 3); (1, 2)] 
 
 Theorem C10_view_stable_with_len_test_refuted :
   exists acts2 v,
-    let st1 := fold_left (step_legacy legacy_capdb) [] init in
-    let st2 := fold_left (step_legacy legacy_capdb) ([] ++ AView v :: acts2) init in
+    let st1 := fold_left (step_legacy legacy_capdb (fun _ => false)) [] init in
+    let st2 := fold_left (step_legacy legacy_capdb (fun _ => false)) ([] ++ AView v :: acts2) init in
     view_of v (views st1) = None /\ (forall a, In a acts2 -> a <> ARelease v) /\
     view_of v (views st2) <> Some (indexes st1).
 Proof.
@@ -143,7 +144,7 @@ Definition ex_capdb (k : N) : capture :=
 Example ex_view_survives_merge :
   let acts1 := [AImport [0]; AStart KImport; AComplete KImport; AImport [1]; AStart KImport; AComplete KImport] in
   let acts2 := [AImport [2]; AStart KImport; AComplete KImport; AStart KMerge; AComplete KMerge] in
-  let st2 := fold_left (step_impl ex_capdb) (acts1 ++ AView 7 :: acts2) init in
+  let st2 := fold_left (step_impl ex_capdb (fun _ => false)) (acts1 ++ AView 7 :: acts2) init in
   map f_uid (indexes st2) = [3] /\
   map (fun e => (e_flow e, e_ver e)) (all_streams (indexes st2)) = [(0, 7); (2, 1); (1, 2)] /\
   option_map (fun s => map (fun e => (e_flow e, e_ver e)) (all_streams s)) (view_of 7 (views st2)) = Some [(1, 2); (0, 3)] /\
